@@ -59,7 +59,13 @@ func verifyFunction(P *Program, fn *ssa.Function, con *Contract, safe bool, prop
 		env := e.rootEnv(st, nil)
 		env.fr = nil
 		for _, c := range con.get("requires") {
-			st.assume(e.evalSpecBool(st, st, c.Expr, env))
+			nerr, nnote := len(e.specErrors), len(e.notes)
+			g := e.evalSpecBool(st, st, c.Expr, env)
+			if c.Optional && len(e.specErrors) > nerr {
+				e.specErrors, e.notes = e.specErrors[:nerr], e.notes[:nnote]
+				continue
+			}
+			st.assume(g)
 		}
 	}
 	e.touchGhosts(st)
